@@ -22,7 +22,7 @@ import (
 //       index reached the length): no edge from the loop body leaves the loop.
 // removeOutputParam, which stops at the wildcard on purpose (what follows it in a compiled AST are
 // synthetic expansions), is not a rename walker and is not covered.
-func ruleG7(c *an.Ctx, sp *ssa.Package, mechOf func(*ssa.Function) map[*ssa.Function]bool) {
+func ruleG7(c *an.Ctx, sp *ssa.Package, mechOf func(*ssa.Function, int) map[*ssa.Function]bool) {
 	p := c.P
 	list := p.Field(pkgSyntax, "BindStms", "List")
 	if list == nil {
@@ -37,7 +37,7 @@ func ruleG7(c *an.Ctx, sp *ssa.Package, mechOf func(*ssa.Function) map[*ssa.Func
 			continue
 		}
 		var fns []*ssa.Function
-		for g := range mechOf(fn) {
+		for g := range mechOf(fn, 3) {
 			fns = append(fns, g)
 		}
 		sort.Slice(fns, func(i, j int) bool { return an.FnName(fns[i]) < an.FnName(fns[j]) })
